@@ -580,6 +580,17 @@ def rule_match1(ctx: Ctx) -> RuleResult:
     for lp in loops:
         flags = {norm(s_.targets[0]) for s_ in lp.body if isinstance(s_, ast.Assign) and isinstance(s_.value, ast.Constant) and s_.value.value is True}
         counters = {norm(s_.target) for s_ in lp.body if isinstance(s_, ast.AugAssign)}
+        # the loop header can bind the witness as well: the loop variable itself (a Path, never None) or a 1-based enumerate counter
+        sentinels, header_counters = set(), set()
+        walked = lp.iter
+        if isinstance(lp.target, ast.Name):
+            sentinels.add(lp.target.id)
+        if isinstance(lp.target, ast.Tuple) and len(lp.target.elts) == 2 and isinstance(walked, ast.Call) and norm(walked.func) == "enumerate" \
+                and len(walked.args) == 2 and isinstance(walked.args[1], ast.Constant) and walked.args[1].value == 1 \
+                and isinstance(lp.target.elts[0], ast.Name):
+            header_counters.add(lp.target.elts[0].id)
+            if isinstance(lp.target.elts[1], ast.Name):
+                sentinels.add(lp.target.elts[1].id)
         blk = None
         from ..util import enclosing_block
         blk = enclosing_block(mod, lp) or []
@@ -587,7 +598,14 @@ def rule_match1(ctx: Ctx) -> RuleResult:
         for s_ in list(lp.orelse) + after:
             if isinstance(s_, ast.If) and any(isinstance(x, ast.Raise) for b in s_.body for x in ast.walk(b)):
                 t = norm(s_.test)
-                for v in flags | counters:
+                for v in sentinels:
+                    # `x = None` before the loop, `for x in ...`, `if x is None: raise` after it
+                    others = [a for a in walk_no_nested(f.node) if isinstance(a, (ast.Assign, ast.AnnAssign, ast.AugAssign)) and
+                              norm(a.targets[0] if isinstance(a, ast.Assign) else a.target) == v]
+                    if t == f"{v} is None" and len(others) == 1 and isinstance(others[0], ast.Assign) and isinstance(others[0].value, ast.Constant) \
+                            and others[0].value.value is None and others[0].lineno < lp.lineno and enclosing_block(mod, others[0]) is blk:
+                        ok, how = True, f"`{v} = None` before the loop and `if {v} is None: raise` after it"
+                for v in flags | counters | header_counters:
                     if t not in (f"not {v}", f"{v} is False", f"{v} == 0", f"not {v} > 0"):
                         continue
                     # the flag says 'nothing matched' until the loop says otherwise: it starts as False / 0 and nothing else binds it
